@@ -265,18 +265,24 @@ def witnessCompletion (g : Cfg) (t : TxIn) (vs : List Var) (ids : List Nat) (p :
 
 /-! ### callNovelORF and callAltTranslation (no variants) -/
 
-/-- S (C08): peptides of every ATG-initiated ORF in three frames of the transcript, with W→F
-forms when requested, minus the canonical pool -/
+/-- S (C08): peptides of every ATG-initiated ORF in three frames of the transcript, minus the
+canonical pool; with W→F reassignment also the W→F images of those (non-canonical) peptides.
+(A W→F image of a CANONICAL peptide is an alt-translation peptide of a canonical protein —
+callAltTranslation's subject — not a novel-ORF peptide.) -/
 def novelOrfPeptides (g : Cfg) (seq : List Char) : List Pep :=
   let t : TxIn := { seq := seq, coding := false, orfStart := 0, orfEnd := 0, startNF := false,
                     endNF := false, sec := [] }
-  (peptidesOf { g with sect := false } t seq [] false).filter fun p => !g.canonical.contains p
+  let plain := (peptidesOf { g with sect := false, w2f := false } t seq [] false).filter
+    fun p => !g.canonical.contains p
+  if g.w2f then
+    plain ++ ((plain.flatMap w2fImages).filter fun p => pepOk g.cleave p && !g.canonical.contains p)
+  else plain
 
 /-- S (C09): digestion products of the annotated ORF that arise ONLY through Sec termination
 and/or W→F substitution (per flags), minus the canonical pool -/
 def altTranslationPeptides (g : Cfg) (t : TxIn) : List Pep :=
-  let plain := peptidesOf { g with sect := false, w2f := false } t t.seq t.sec false
-  (peptidesOf g t t.seq t.sec false).filter fun p =>
+  let plain := peptidesOf { g with sect := false, w2f := false } t t.seq t.sec t.endNF
+  (peptidesOf g t t.seq t.sec t.endNF).filter fun p =>
     !plain.contains p && !g.canonical.contains p
 
 end MoPepGen.Spec
